@@ -623,6 +623,8 @@ def wasm_run(h, entry, argvals):
                 out["wasmtime"] = ("ok", fn(wt[1], *argvals))
             except (wasmtime.Trap, wasmtime.WasmtimeError) as e:
                 out["wasmtime"] = ("trap", str(e).splitlines()[0][:80])
+            except Exception as e:      # e.g. the export has another signature than the function it is supposed to name
+                out["wasmtime"] = ("trap", f"call not possible: {type(e).__name__}: {str(e)[:60]}")
     rf = h["ref"]
     if rf[0] != "ok":
         out["ref"] = rf
@@ -633,6 +635,8 @@ def wasm_run(h, entry, argvals):
             out["ref"] = ("trap", str(e))
         except KeyError:
             out["ref"] = ("no-export", entry)
+        except Exception as e:          # arguments do not fit the exported function's signature
+            out["ref"] = ("trap", f"call not possible: {type(e).__name__}")
     return out
 
 
